@@ -236,3 +236,4 @@ def run(col, configs, tier):
         # the `format` build adds a required-digits test to the integer parsers' Ok exits: it must be on the
         # digit count itself, or `format` changes what STANDARD input is accepted
         guarded_soft(col, X.rule_ok_requires_digits, facts)
+        guarded_soft(col, X.rule_absent_punctuation_guarded, facts)
